@@ -451,6 +451,7 @@ def check_who_member_map(ctx: CheckContext, r: Resolver, ci: ClassInfo, member_m
     ctx.rule(rule, f"only a store dominated by the key-clash renaming loop may write {ci.name}.{member_map}[...]; "
                    "other methods must insert through it with overwrite prevention on; insertion paths never delete members")
     inserter: Optional[FuncInfo] = None
+    storers: Dict[str, int] = {}
     for nm, f in list(ci.methods.items()) + list(ci.setters.items()):
         me = self_name(f)
         if me is None:
@@ -464,6 +465,13 @@ def check_who_member_map(ctx: CheckContext, r: Resolver, ci: ClassInfo, member_m
                 key = f"{f.qualname}:{norm_stmt(st)}"
                 loc = f"{f.module.relpath}:{st.lineno}"
                 if how == "subscript-store":
+                    tgt = st.targets[0] if isinstance(st, ast.Assign) else None
+                    kname = tgt.slice.id if isinstance(tgt, ast.Subscript) and isinstance(tgt.slice, ast.Name) else None
+                    rebinds = any(isinstance(a, ast.Assign) and any(isinstance(t2, ast.Name) and t2.id == kname for t2 in a.targets) for a in body_nodes(f))
+                    if nm.startswith("_") and not nm.startswith("__") and kname in f.pos_params[1:] and not rebinds:
+                        # a private "store this key" helper: the obligation sits at its call sites
+                        storers[nm] = f.pos_params.index(kname) - 1
+                        continue
                     ok, why = _store_guarded_by_clash_loop(f, me, member_map, st)
                     if ok or ok is None:
                         inserter = f
@@ -479,6 +487,29 @@ def check_who_member_map(ctx: CheckContext, r: Resolver, ci: ClassInfo, member_m
                     meth = n.func.attr
                     ok = meth not in ("update", "setdefault", "__setitem__")
                     ctx.ob(rule, key, loc, ok, "" if ok else f"{ci.name}.{nm} writes the member map with .{meth}(), bypassing the renaming insert")
+    if storers:
+        fresh = _fresh_key_methods(ci, member_map)
+        for nm, f in ci.methods.items():
+            me = self_name(f)
+            if me is None or nm in storers:
+                continue
+            if not any(isinstance(c, ast.Call) and isinstance(c.func, ast.Attribute) and c.func.attr in storers for c in body_nodes(f)):
+                continue
+            flags = {a for a in f.pos_params + f.kwonly_params if isinstance(f.default_of(a), ast.Constant) and f.default_of(a).value is True}
+            fl = _KeyFlow(f, me, member_map, fresh, flags, storers)
+            fl.run(f.node, {})
+            for site, ok, k in fl.stores:
+                if not isinstance(site, ast.Call):
+                    continue
+                if ok is None:
+                    ctx.info.setdefault("who_undecided", []).append(f"{f.qualname}: key '{k}' handed to a storing helper is computed by an uninterpreted helper")
+                    inserter = inserter or f
+                    continue
+                if ok:
+                    inserter = f
+                ctx.ob(rule, f"{f.qualname}:{norm_stmt(site)}", f"{f.module.relpath}:{site.lineno}", bool(ok),
+                       "" if ok else f"{ci.name}.{nm} hands key '{k}' to the storing helper {site.func.attr}() without proving it absent from self.{member_map} "
+                                     f"(no renaming loop or unique-key helper precedes the call): an existing member with that key is overwritten")
     if inserter is None:
         raise AnalysisError(f"{ci.name}: no insert method with a key-clash renaming loop found (anchor vanished)")
     # callers inside the class must keep overwrite prevention on
@@ -580,9 +611,10 @@ def _fresh_key_methods(ci: ClassInfo, member_map: str) -> Set[str]:
 class _KeyFlow(Flow):
     """must-fact per key variable: 'unique' = proven absent from the map, or overwriting explicitly allowed by the flag parameter."""
 
-    def __init__(self, f: FuncInfo, me: str, member_map: str, fresh_methods: Set[str], flags: Set[str]):
+    def __init__(self, f: FuncInfo, me: str, member_map: str, fresh_methods: Set[str], flags: Set[str], storers: Optional[Dict[str, int]] = None):
         self.f, self.me, self.map, self.fresh, self.flags = f, me, member_map, fresh_methods, flags
         self.stores: List[Tuple[ast.stmt, bool, str]] = []
+        self.storers = storers or {}          # private methods that store their <index>-th argument as key: a call of one is a store
 
     def copy(self, s):
         return dict(s)
@@ -610,6 +642,30 @@ class _KeyFlow(Flow):
             return None
         return key, flagged
 
+    def _accept(self, test: ast.AST) -> Optional[Tuple[str, bool]]:
+        """(key, edge): on that edge of the test the key is acceptable for a store (proven absent, or overwrite prevention is off).
+        key '*' = every key (only the flag was tested)."""
+        if isinstance(test, ast.Compare) and len(test.ops) == 1 and isinstance(test.left, ast.Name) and self_attr(test.comparators[0], self.me) == self.map:
+            if isinstance(test.ops[0], ast.NotIn):
+                return test.left.id, True
+            if isinstance(test.ops[0], ast.In):
+                return test.left.id, False
+        if isinstance(test, ast.Name) and test.id in self.flags:
+            return "*", False
+        if isinstance(test, ast.UnaryOp) and isinstance(test.op, ast.Not):
+            inner = self._accept(test.operand)
+            return None if inner is None else (inner[0], not inner[1])
+        if isinstance(test, ast.BoolOp):
+            parts = [self._accept(v) for v in test.values]
+            if any(p_ is None for p_ in parts):
+                return None
+            want = isinstance(test.op, ast.Or)          # a disjunction of "acceptable when true" parts is acceptable when true
+            if all(p_[1] == want for p_ in parts):
+                keys = {p_[0] for p_ in parts if p_[0] != "*"}
+                if len(keys) <= 1:
+                    return (keys.pop() if keys else "*"), want
+        return None
+
     def stmt(self, st, s):
         if isinstance(st, ast.While):
             pr = self._probe(st.test)
@@ -617,6 +673,20 @@ class _KeyFlow(Flow):
                 s = dict(s)
                 s[pr[0]] = True      # loop exits only when the key is absent (or the flag is off)
                 return s
+        if isinstance(st, ast.If):
+            acc = self._accept(st.test)
+            if acc is not None and not (isinstance(st.test, ast.Name)):
+                k, pol = acc
+                t_in, f_in = dict(s), dict(s)
+                good = t_in if pol else f_in
+                if k == "*":
+                    for nm in list(good) + [n.id for n in ast.walk(st) if isinstance(n, ast.Name)]:
+                        good[nm] = True
+                else:
+                    good[k] = True
+                a = self.block(st.body, t_in)
+                b = self.block(st.orelse, f_in)
+                return self._j(a, b)
         if isinstance(st, ast.If) and isinstance(st.test, ast.Name) and st.test.id in self.flags:
             t = self.block(st.body, dict(s))
             f_ = dict(s)
@@ -630,6 +700,14 @@ class _KeyFlow(Flow):
         if isinstance(st, (ast.FunctionDef, ast.AsyncFunctionDef, ast.ClassDef)):
             return s
         s = dict(s)
+        if self.storers:
+            for c in ast.walk(st):
+                if isinstance(c, ast.Call) and isinstance(c.func, ast.Attribute) and isinstance(c.func.value, ast.Name) and c.func.value.id == self.me \
+                        and c.func.attr in self.storers:
+                    i = self.storers[c.func.attr]
+                    ke = c.args[i] if i < len(c.args) else next((k.value for k in c.keywords if k.arg == "key"), None)
+                    kn = ke.id if isinstance(ke, ast.Name) else None
+                    self.stores.append((c, s.get(kn, False) if kn else None, kn or (ast.unparse(ke) if ke is not None else "?")))
         if isinstance(st, ast.Assign):
             for t in st.targets:
                 if isinstance(t, ast.Subscript) and self_attr(t.value, self.me) == self.map:
